@@ -16,6 +16,9 @@ package fscache
 //@   private changes.write
 //@ define CInv(c ref) bool = c.bufferFS != nil && c.remoteFS != nil && c.bufferFS != c.remoteFS && c.changes.remove != nil && c.changes.removeAll != nil && c.changes.mkdirAll != nil && c.changes.write != nil && ref(c.changes.remove) != ref(c.changes.removeAll) && ref(c.changes.remove) != ref(c.changes.write) && ref(c.changes.removeAll) != ref(c.changes.write)
 
+// Removed(c, p): a pending Remove of p, or a pending RemoveAll of p or of a directory above it
+//@ define Removed(c ref, p string) bool = has(c.changes.remove, p) || has(c.changes.removeAll, p) || existss(q, has(c.changes.removeAll, q) && hasprefix(p, cat(q, "/")))
+
 // journal updates: exactly one entry is added, everything else is kept
 //@ func (*Cache).changeWrite [C06 C07]
 //@   requires CInv(c)
@@ -47,7 +50,10 @@ package fscache
 //@   trace_ensures true : ^EX $
 //@   ensures src == cleanPath(p) && srcFS != nil && (srcFS == c.bufferFS || srcFS == c.remoteFS)
 //@   ensures inbuf ==> srcFS == c.bufferFS
-//@   ensures !inbuf ==> srcFS == c.remoteFS
+//@   ensures [C07] !inbuf && !Removed(c, cleanPath(p)) ==> srcFS == c.remoteFS
+//@   ensures [C06] !inbuf ==> srcFS == c.remoteFS
+// a path with a pending remove is not served from the remote (read-your-writes)
+//@   ensures [C07] !inbuf && Removed(c, cleanPath(p)) ==> srcFS == c.bufferFS
 
 // mutators: the remote is only read; the cleaned path is journalled on every path; the buffer gets the cleaned path
 //@ func (*Cache).MkdirAll [C06 C07]
@@ -105,25 +111,43 @@ package fscache
 // readers: answered buffer-first; nothing is journalled, the remote is only read
 //@ func (*Cache).IsExist [C06 C07]
 //@   requires CInv(c)
+//@   modifies $none
 //@   only_calls c.remoteFS : ReadDir IsExist IsFile IsDir ReadFile Reader Lstat Filespace
-//@   trace Filespace.IsExist as Q
+//@   trace Filespace.IsExist as QB bind bq when $recv == c.bufferFS
+//@   trace Filespace.IsExist as QR bind rq when $recv == c.remoteFS
 //@   at_call Filespace.IsExist requires ($recv == c.bufferFS || $recv == c.remoteFS) && $0 == cleanPath(old(src))
-//@   trace_ensures result : Q $
-//@   trace_ensures !result : ^Q Q $
+// buffer first; a node of the remote that no pending operation touched is visible
+//@   ensures bq ==> result
+//@   ensures !bq && !rq ==> !result
+//@   ensures !bq && rq && !Removed(c, cleanPath(old(src))) ==> result
+// a node of the remote with a pending remove is gone (read-your-writes)
+//@   ensures [C07] !bq && rq && Removed(c, cleanPath(old(src))) ==> !result
 //@ func (*Cache).IsFile [C06 C07]
 //@   requires CInv(c)
+//@   modifies $none
 //@   only_calls c.remoteFS : ReadDir IsExist IsFile IsDir ReadFile Reader Lstat Filespace
-//@   trace Filespace.IsFile as Q
+//@   trace Filespace.IsFile as QB bind bq when $recv == c.bufferFS
+//@   trace Filespace.IsFile as QR bind rq when $recv == c.remoteFS
 //@   at_call Filespace.IsFile requires ($recv == c.bufferFS || $recv == c.remoteFS) && $0 == cleanPath(old(src))
-//@   trace_ensures result : Q $
-//@   trace_ensures !result : ^Q Q $
+// buffer first; a node of the remote that no pending operation touched is visible
+//@   ensures bq ==> result
+//@   ensures !bq && !rq ==> !result
+//@   ensures !bq && rq && !Removed(c, cleanPath(old(src))) ==> result
+// a node of the remote with a pending remove is gone (read-your-writes)
+//@   ensures [C07] !bq && rq && Removed(c, cleanPath(old(src))) ==> !result
 //@ func (*Cache).IsDir [C06 C07]
 //@   requires CInv(c)
+//@   modifies $none
 //@   only_calls c.remoteFS : ReadDir IsExist IsFile IsDir ReadFile Reader Lstat Filespace
-//@   trace Filespace.IsDir as Q
+//@   trace Filespace.IsDir as QB bind bq when $recv == c.bufferFS
+//@   trace Filespace.IsDir as QR bind rq when $recv == c.remoteFS
 //@   at_call Filespace.IsDir requires ($recv == c.bufferFS || $recv == c.remoteFS) && $0 == cleanPath(old(src))
-//@   trace_ensures result : Q $
-//@   trace_ensures !result : ^Q Q $
+// buffer first; a node of the remote that no pending operation touched is visible
+//@   ensures bq ==> result
+//@   ensures !bq && !rq ==> !result
+//@   ensures !bq && rq && !Removed(c, cleanPath(old(src))) ==> result
+// a node of the remote with a pending remove is gone (read-your-writes)
+//@   ensures [C07] !bq && rq && Removed(c, cleanPath(old(src))) ==> !result
 //@ func (*Cache).ReadFile [C06 C07]
 //@   requires CInv(c)
 //@   only_calls c.remoteFS : ReadDir IsExist IsFile IsDir ReadFile Reader Lstat Filespace
@@ -193,3 +217,21 @@ package fscache
 //@   ensures mkerr != nil ==> err == mkerr
 //@   ensures cperr != nil ==> err == cperr
 //@   ensures treeerr != nil ==> err == treeerr
+
+// ReadDir merges the two listings by name: the remote's entries first, then the buffer's
+// entries whose name the remote does not list (a created directory is listed once)
+//@ func (*Cache).ReadDir [C07]
+//@   requires CInv(c)
+//@   only_calls c.remoteFS : ReadDir IsExist IsFile IsDir ReadFile Reader Lstat Filespace
+//@   trace Filespace.ReadDir as RR bind rr when $recv == c.remoteFS
+//@   trace Filespace.ReadDir as BR bind br when $recv == c.bufferFS
+//@   at_call Filespace.ReadDir requires ($recv == c.bufferFS || $recv == c.remoteFS) && $0 == cleanPath(old(src))
+//@   ensures rr.1 != nil && br.1 != nil ==> err != nil && len(result) == 0
+//@   loop 1 invariant -1 <= $i && $i < len(bufferDirs) && len(result) >= len(remoteDirs)
+//@   loop 1 invariant (arr(result) != arr(bufferDirs) || len(bufferDirs) == 0) && (arr(result) == arr(remoteDirs) ==> off(result) == off(remoteDirs)) && (arr(bufferDirs) == 0 || allocated(arr(bufferDirs))) && (arr(remoteDirs) == 0 || allocated(arr(remoteDirs)))
+//@   loop 1 invariant forall(k, 0 <= k && k < len(bufferDirs) ==> bufferDirs[k] != nil) && forall(k, 0 <= k && k < len(remoteDirs) ==> remoteDirs[k] != nil)
+//@   loop 2 invariant -1 <= $i && $i < len(remoteDirs) && bnode != nil && len(result) >= len(remoteDirs)
+//@   loop 2 invariant (arr(result) != arr(bufferDirs) || len(bufferDirs) == 0) && (arr(result) == arr(remoteDirs) ==> off(result) == off(remoteDirs)) && (arr(bufferDirs) == 0 || allocated(arr(bufferDirs))) && (arr(remoteDirs) == 0 || allocated(arr(remoteDirs)))
+//@   loop 2 invariant forall(k, 0 <= k && k < len(bufferDirs) ==> bufferDirs[k] != nil) && forall(k, 0 <= k && k < len(remoteDirs) ==> remoteDirs[k] != nil)
+//@   ensures !(rr.1 != nil && br.1 != nil) ==> err == nil
+//@   ensures err == nil ==> len(result) >= len(rr.0)
